@@ -24,13 +24,29 @@ type input struct {
 	Key     string      `json:"key,omitempty"`
 	Count   int32       `json:"count"`
 	Dir     int32       `json:"dir"`
+	Stem    [][2]int    `json:"stem,omitempty"`  // long-key cases: the common stem, run-length encoded
+	Items   []string    `json:"items,omitempty"` // op self: the byte strings of the literal self-check
 }
 
 type env struct {
 	out   *hlib.Out
 	ldb   []db.DB // reusable on-disk databases, one per layer slot
 	ldbOK bool
+	// long-key streams: the stem the case terms are written around (none: plain hex)
+	st   hlib.Stem
+	stem []byte
 }
+
+func (e *env) setStem(runs [][2]int) {
+	e.st = hlib.Stem{Runs: runs}
+	e.stem = e.st.Bytes()
+}
+
+func (e *env) hx(b []byte) string        { return hlib.H1Stem(b, e.stem) }
+func (e *env) hb(items [][]byte) string  { return hlib.HBStem(items, e.stem) }
+func (e *env) ly(ls []hlib.Layer) string { return hlib.LayersCoqStem(ls, e.stem) }
+func (e *env) wrap(term string) string   { return hlib.WithStem(e.st, e.stem, term) }
+func (e *env) in(i input) input          { i.Stem = e.st.Runs; return i }
 
 func (e *env) openLdb(dir string) {
 	for i := 0; i < 3; i++ {
@@ -159,9 +175,9 @@ func (e *env) runList(kind string, merged bool, backend []string, layers []hlib.
 		res = [][]byte{[]byte("PANIC " + p)}
 	}
 	e.out.Emit(kind, len(res) > 0,
-		hlib.App("CList", hlib.Bool(merged), hlib.LayersCoq(layers), hlib.Hx(prefix), hlib.Hx(key),
-			hlib.Z(int64(count)), hlib.Z(int64(d)), hlib.HB(res)),
-		toInput("list", merged, backend, layers, prefix, key, count, d), hexes(res))
+		e.wrap(hlib.App("CList", hlib.Bool(merged), e.ly(layers), e.hx(prefix), e.hx(key),
+			hlib.Z(int64(count)), hlib.Z(int64(d)), e.hb(res))),
+		e.in(toInput("list", merged, backend, layers, prefix, key, count, d)), hexes(res))
 }
 
 func (e *env) runCount(kind string, merged bool, backend []string, layers []hlib.Layer, prefix []byte) {
@@ -172,8 +188,8 @@ func (e *env) runCount(kind string, merged bool, backend []string, layers []hlib
 		c = -1
 	}
 	e.out.Emit(kind, c > 0,
-		hlib.App("CCount", hlib.Bool(merged), hlib.LayersCoq(layers), hlib.Hx(prefix), hlib.Z(c)),
-		toInput("count", merged, backend, layers, prefix, nil, 0, 0), c)
+		e.wrap(hlib.App("CCount", hlib.Bool(merged), e.ly(layers), e.hx(prefix), hlib.Z(c))),
+		e.in(toInput("count", merged, backend, layers, prefix, nil, 0, 0)), c)
 }
 
 func (e *env) runPages(kind string, merged bool, backend []string, layers []hlib.Layer, prefix []byte, n, d int32) {
@@ -187,6 +203,9 @@ func (e *env) runPagesOn(kind string, dbs []db.DB, merged bool, backend []string
 	var pages [][][]byte
 	finished := false
 	var key []byte
+	// the client gives up after maxReq requests (every terminating run needs at most one request
+	// per stored entry plus the final empty page): finished = false is the observable
+	// "did not terminate" (impl = None in the case), which the spec rejects
 	maxReq := fuelOf(layers)
 	pan := safe(func() {
 		for req := 0; req < maxReq; req++ {
@@ -207,14 +226,14 @@ func (e *env) runPagesOn(kind string, dbs []db.DB, merged bool, backend []string
 	impl := [][]string{}
 	total := 0
 	for _, p := range pages {
-		items = append(items, hlib.HB(p))
+		items = append(items, e.hb(p))
 		impl = append(impl, hexes(p))
 		total += len(p)
 	}
 	e.out.Emit(kind, total > 0,
-		hlib.App("CPages", hlib.Bool(merged), hlib.LayersCoq(layers), hlib.Hx(prefix),
-			hlib.Z(int64(n)), hlib.Z(int64(d)), hlib.Opt(finished, hlib.List(items))),
-		toInput("pages", merged, backend, layers, prefix, nil, n, d),
+		e.wrap(hlib.App("CPages", hlib.Bool(merged), e.ly(layers), e.hx(prefix),
+			hlib.Z(int64(n)), hlib.Z(int64(d)), hlib.Opt(finished, hlib.List(items)))),
+		e.in(toInput("pages", merged, backend, layers, prefix, nil, n, d)),
 		map[string]interface{}{"finished": finished, "pages": impl})
 }
 
@@ -322,6 +341,121 @@ func allKeys(layers []hlib.Layer) [][]byte {
 var pageDirs = []int32{0, 1, 4, 5, 8, 9}
 var oddDirs = []int32{3, 6, 7, 12, 13, 10, 11}
 
+// genStem makes a run-length encoded stem of 120..200 bytes (around the 128-byte mark of
+// mergedIterator's prevKey buffer), optionally starting like a local-db key.
+var stemLens = []int{120, 124, 126, 127, 128, 129, 130, 132, 144, 160, 200}
+var stemBytes = []byte{'a', 'b', 0x00, 0xff, '-', '0', 'a', 'b'}
+
+func genStem(r *hlib.Rng) [][2]int {
+	total := hlib.Pick(r, stemLens)
+	runs := [][2]int{}
+	if r.Chance(1, 3) {
+		for _, c := range []byte("LODB-") {
+			runs = append(runs, [2]int{int(c), 1})
+		}
+		total -= 5
+	}
+	nr := r.Range(1, 3)
+	last := -1
+	for i := 0; i < nr; i++ {
+		n := total
+		if i < nr-1 {
+			n = r.Range(1, total-(nr-1-i))
+		}
+		b := int(hlib.Pick(r, stemBytes))
+		for b == last || (i == nr-1 && b == 0xff && !r.Chance(1, 3)) {
+			b = int(hlib.Pick(r, stemBytes))
+		}
+		runs = append(runs, [2]int{b, n})
+		last = b
+		total -= n
+	}
+	return runs
+}
+
+// selfCheck emits the stem notation next to plain hex for a few byte strings.
+func (e *env) selfCheck(kind string, items [][]byte) {
+	e.out.Emit(kind, true, e.wrap(hlib.App("CSelf", e.hb(items), hlib.HB(items))),
+		e.in(input{Op: "self", Items: hexes(items)}), hexes(items))
+}
+
+// longSet: one key set whose keys share the long stem, with everything the guarded short-key
+// stream does on a set: the paging client for every page size and direction, PrefixCount, single
+// List calls continuing from stored / absent keys.
+func (e *env) longSet(r *hlib.Rng, s int, nl int, merged bool, maxPer int, useLdb bool) {
+	e.setStem(genStem(r))
+	defer e.setStem(nil)
+	stem := e.stem
+	cut := func(b []byte) []byte { return append([]byte{}, b[:len(b)-1]...) }
+	with := func(b []byte, c ...byte) []byte { return append(append([]byte{}, b...), c...) }
+	// the prefix the keys are generated around
+	var p []byte
+	switch r.Intn(10) {
+	case 0, 1:
+		p = with(stem, hlib.Pick(r, alphabet))
+	case 2:
+		p = with(stem, 0xff, 0xff)
+	case 3, 4:
+		p = cut(stem)
+	default:
+		p = with(stem)
+	}
+	layers := genLayers(r, nl, p, maxPer, false)
+	// the prefix that is listed: mostly the same, sometimes a shorter one
+	pl := p
+	switch r.Intn(10) {
+	case 0:
+		pl = []byte{}
+	case 1:
+		pl = with(p[:1])
+	case 2:
+		pl = cut(p)
+	}
+	backend := e.backends(r, nl, useLdb)
+	tag := fmt.Sprintf("long-L%d", nl)
+	if !merged {
+		if backend[0] = "memdb"; useLdb && e.ldbOK {
+			backend[0] = "leveldb" // the single-database path: both backends for sure
+		}
+		tag = "long-single-" + backend[0]
+	}
+	if s < 4 || s%16 == 0 {
+		e.selfCheck("long-selfcheck", [][]byte{stem, cut(stem), cut(cut(stem)), p, bytesPrefix(p), bytesPrefix(cut(stem)), with(p, 'a', 0x00), with([]byte{0x0a, 0x96, 0x01}, stem...)})
+	}
+	t := underCount(layers, pl)
+	dirs := append([]int32{}, pageDirs...)
+	dirs = append(dirs, hlib.Pick(r, oddDirs))
+	dbs := e.build(layers, backend)
+	for _, d := range dirs {
+		for n := int32(0); n <= int32(t)+1; n++ {
+			e.runPagesOn("pages-"+tag, dbs, merged, backend, layers, pl, n, d)
+		}
+	}
+	e.runCount("count-"+tag, merged, backend, layers, pl)
+	e.runCount("count-"+tag, merged, backend, layers, stem)
+	e.runCount("count-"+tag, merged, backend, layers, with(p, randKey(r, 0, 1)...))
+	keys := allKeys(layers)
+	for i := 0; i < 9; i++ {
+		var key []byte
+		switch r.Intn(5) {
+		case 0:
+			key = randKey(r, 1, 3)
+		case 1:
+			key = with(p, randKey(r, 0, 2)...)
+		default:
+			if len(keys) > 0 {
+				key = hlib.Pick(r, keys)
+			}
+		}
+		count := hlib.Pick(r, []int32{-1, 0, 1, 1, 2, 3, int32(t), int32(t) + 1})
+		d := int32(r.Intn(16))
+		if r.Chance(1, 4) {
+			d, count = 2, 1 // the "seek" request
+		}
+		e.runList("list-"+tag, merged, backend, layers, pl, key, count, d)
+	}
+}
+
 func (e *env) backends(r *hlib.Rng, nl int, useLdb bool) []string {
 	b := make([]string, nl)
 	for i := range b {
@@ -369,6 +503,7 @@ func main() {
 		}
 		prefix, _ := hex.DecodeString(in.Prefix)
 		key, _ := hex.DecodeString(in.Key)
+		e.setStem(in.Stem)
 		switch in.Op {
 		case "list":
 			e.runList("replay", in.Merged, in.Backend, layers, prefix, key, in.Count, in.Dir)
@@ -376,6 +511,13 @@ func main() {
 			e.runCount("replay", in.Merged, in.Backend, layers, prefix)
 		case "pages":
 			e.runPages("replay", in.Merged, in.Backend, layers, prefix, in.Count, in.Dir)
+		case "self":
+			items := [][]byte{}
+			for _, h := range in.Items {
+				b, _ := hex.DecodeString(h)
+				items = append(items, b)
+			}
+			e.selfCheck("replay", items)
 		}
 		return
 	}
@@ -383,9 +525,13 @@ func main() {
 	r := hlib.NewRng(opts.Seed)
 	nsets := 24
 	maxPer := 6
+	nlong := 16
+	maxPerLong := 6
 	if opts.Thorough() {
 		nsets = 700
 		maxPer = 8
+		nlong = 240
+		maxPerLong = 7
 	}
 	shapes := []struct {
 		nl     int
@@ -483,5 +629,21 @@ func main() {
 			e.runPages("empty-key", merged, backend, layers, nil, int32(1+s%2), d)
 			e.runList("empty-key", merged, backend, layers, nil, nil, 0, d)
 		}
+	}
+
+	// long-key stream (guarded): keys of 120..200 bytes sharing one stem, 2 / 3 merged layers with
+	// duplicates and tombstones, one merged layer, and the single-database path
+	longShapes := []struct {
+		nl     int
+		merged bool
+	}{{2, true}, {3, true}, {1, false}, {3, true}, {2, true}, {1, true}, {3, true}, {1, false}}
+	rl := hlib.NewRng(opts.Seed ^ 0xC07B)
+	for s := 0; s < nlong; s++ {
+		sh := longShapes[s%len(longShapes)]
+		useLdb := s%3 == 2
+		if !sh.merged {
+			useLdb = s%len(longShapes) == 2
+		}
+		e.longSet(rl, s, sh.nl, sh.merged, maxPerLong, useLdb)
 	}
 }
